@@ -62,7 +62,7 @@ Outcome(ev, name, v, reports) ==
       [] OTHER -> IF ev.ok = 1 THEN Granted(ev, name)
                   ELSE Refused(ev, name, reports)
 
-RangeOf(h) == <<KMin(par[h].k), KMax(par[h].k)>>
+RangeOf(h) == FreqRange(par, h)
 
 -----------------------------------------------------------------------------
 (* vnacal_make_vector_parameter *)
@@ -73,9 +73,29 @@ TMakeVec ==
           THEN /\ Granted(ev, "MakeVec")
                /\ Explain(ev.h >= 3 /\ ev.h \notin DOMAIN par,
                           <<l, "MakeVec", "h", "a handle not in use">>)
-               /\ par' = Put(par, ev.h, [k |-> ev.k, y |-> ev.y, cls |-> ev.cls])
+               /\ par' = Put(par, ev.h, [kind |-> "vec", k |-> ev.k, y |-> ev.y,
+                                             cls |-> ev.cls])
           ELSE /\ Refused(ev, "MakeVec", TRUE)
                /\ par' = par
+       /\ UNCHANGED <<memo, nw, cal>>
+
+(* vnacal_make_scalar_parameter / _unknown_parameter / _correlated_        *)
+(* parameter with valid arguments (the driver generates no others): the    *)
+(* new handle's usable range is Interp!FreqRange                           *)
+TMakePar ==
+    LET ev == TraceLog[l]
+        rec == CASE ev.kind = "scalar" -> [kind |-> "scalar"]
+                 [] ev.kind = "unk"    -> [kind |-> "unk", base |-> ev.base]
+                 [] ev.kind = "corr"   -> [kind |-> "corr", base |-> ev.base,
+                                           sk |-> ev.sk]
+    IN /\ ev.e = "MakePar"
+       /\ ev.kind \in {"scalar", "unk", "corr"}
+       /\ ev.kind # "scalar" => ev.base \in DOMAIN par
+       /\ ev.kind = "corr" => (Len(ev.sk) = 0 \/ (Len(ev.sk) >= 2 /\ IsKnotVec(ev.sk)))
+       /\ Granted(ev, "MakePar")
+       /\ Explain(ev.h >= 3 /\ ev.h \notin DOMAIN par,
+                  <<l, "MakePar", "h", "a handle not in use">>)
+       /\ par' = Put(par, ev.h, rec)
        /\ UNCHANGED <<memo, nw, cal>>
 
 (* vnacal_get_parameter_value on a vector parameter *)
@@ -86,7 +106,7 @@ TGetVal ==
         key == <<"p", ev.h, ev.x>>
         r  == Eval(p.k, p.y, ev.x)
     IN /\ ev.e = "GetVal"
-       /\ ev.h \in DOMAIN par
+       /\ ev.h \in DOMAIN par /\ par[ev.h].kind = "vec"
        /\ Outcome(ev, "GetVal", v, FALSE)
        /\ IF ev.ok = 1
           THEN /\ Explain(r.known => ev.v = r.v, <<l, "GetVal", "v", r>>)
@@ -121,8 +141,9 @@ TSetF ==
        /\ nw' = IF ev.ok = 1 THEN [nw EXCEPT !.band = <<lo, hi>>] ELSE nw
        /\ UNCHANGED <<par, memo, cal>>
 
-(* vnacal_new_add_* with one vector parameter among the S cells; all other *)
-(* arguments are valid.  Before the frequency vector is set the manual     *)
+(* vnacal_new_add_* with one frequency-limited parameter (vector, unknown   *)
+(* over a vector guess, correlated with a sigma grid over any base) among  *)
+(* the S cells; all other arguments are valid.  Before the frequency vector is set the manual     *)
 (* does not say whether standards may be added: outcome left open.         *)
 TAddVec ==
     LET ev == TraceLog[l]
@@ -212,7 +233,7 @@ TStir ==
 TNext ==
     /\ l <= Len(TraceLog)
     /\ l' = l + 1
-    /\ (TReset \/ TMakeVec \/ TGetVal \/ TNewAlloc \/ TSetF \/ TAddVec
+    /\ (TReset \/ TMakeVec \/ TMakePar \/ TGetVal \/ TNewAlloc \/ TSetF \/ TAddVec
           \/ TSetMErr \/ TCalMake \/ TApply \/ TProbe \/ TStir)
 
 TraceSpec == TInit /\ [][TNext]_tvars
